@@ -2,7 +2,7 @@
 //! placement of the time span end-points; C17 — comments; C04 — no panic on any feasible path.
 use std::sync::Arc;
 
-use opening_hours::{Context, OpeningHours};
+use opening_hours::OpeningHours;
 use opening_hours_syntax::rules::time::TimeEvent;
 use opening_hours_syntax::rules::RuleOperator;
 use opening_hours_syntax::RuleKind;
@@ -21,7 +21,7 @@ pub fn day_schedule(specs: &[RuleSpec], offset: i64, check_comments: bool) {
     let (expr, models) = build_expr(specs);
     let today: Vec<bool> = specs.iter().map(|s| s.sel.matches(offset)).collect();
     let yesterday: Vec<bool> = specs.iter().map(|s| s.sel.matches(offset - 1)).collect();
-    let oh = OpeningHours::verif_from_expression(expr, Context::default());
+    let oh = OpeningHours::verif_from_expression(expr, context());
     let sched = oh.schedule_at(probe_day(offset));
     let v = view(&sched);
     let m = vrt::fresh_int("m", 0, DAY - 1);
